@@ -46,7 +46,9 @@ CONSTANTS Kind,          \* "udp" | "tcp"
           Strict,        \* selector-faithful scheduling
           Horizon,
           Fx,            \* repairs applied
-          Assume         \* the peer assumption of C06 holds for Faults (judge C06 clauses)
+          Assume,        \* the peer assumption of C06 holds for Faults (judge C06 clauses)
+          CancelAts      \* ticks after its CALL at which the user of the library may cancel the task that runs a
+                         \* request (task.cancel(), asyncio.wait_for / timeout around the call); {} = never
 
 Callers == 1..NCallers
 NoF == [what |-> "none", of |-> 0, x |-> 0]
@@ -119,7 +121,7 @@ Init == /\ now = 0
 (* network, the observable events (in order), and which environment picks  *)
 (* were consumed.                                                          *)
 (***************************************************************************)
-X0(st) == [s |-> st, q |-> <<>>, net |-> {}, ev |-> <<>>, uf |-> FALSE, uo |-> FALSE, ug |-> FALSE]
+X0(st) == [s |-> st, q |-> <<>>, net |-> {}, ev |-> <<>>, uf |-> FALSE, uo |-> FALSE, ug |-> FALSE, uk |-> FALSE]
 
 Ev(e) == [e |-> e, t |-> now, r |-> 0, tr |-> 0, f |-> NoF, pf |-> NoF, out |-> "", fam |-> TRUE,
           msg |-> 0, why |-> ""]
@@ -286,11 +288,28 @@ OnConnError(X, c, f, o, g) ==
     THEN Acquire(Release([X EXCEPT !.s.retry = @ + 1]), c, f, o)
     ELSE MaxRetries(X, c, g)
 
-TaskStep(X, c, f, o, g) ==
+\* task.cancel() by the user of the library while request r is in flight (timer "uc" armed at the CALL).  The task is
+\* suspended in `await response_future`: the future is cancelled with it (or, when the future is already done and the
+\* wake-up is queued, CancelledError is thrown into the coroutine instead of the result).  send_request cannot tell
+\* this from its own timeout: the cancellation is swallowed and becomes a retry (OBS.CancelSwallowed); the timer of the
+\* abandoned attempt is NOT cancelled.  Other suspension points (lock, connecting) are outside this model: single
+\* caller, connection attempts that do not hang.
+UCancel(X, r) ==
+    LET c == (r - 1) \div NReq + 1
+        st == X.s IN
+    IF st.pc[c] = "wait" /\ Req(c, st.idx[c]) = r
+    THEN LET X1 == Emit(X, [Ev("UCANCEL") EXCEPT !.r = r]) IN
+         IF st.res[c].st = "pending" THEN Resolve(X1, c, "cancelled", NoF)
+         ELSE [X1 EXCEPT !.s.res[c] = [st |-> "cancelled", v |-> NoF]]
+    ELSE X
+
+TaskStep(X, c, f, o, g, k) ==
     LET st == X.s pc == st.pc[c] IN
     CASE pc = "idle" ->
-           LET X1 == Emit([X EXCEPT !.s.idx[c] = @ + 1, !.s.rtx[c] = 0], [Ev("CALL") EXCEPT !.r = Req(c, st.idx[c] + 1)])
-           IN Acquire(X1, c, f, o)
+           LET r == Req(c, st.idx[c] + 1)
+               X1 == Emit([X EXCEPT !.s.idx[c] = @ + 1, !.s.rtx[c] = 0, !.uk = TRUE], [Ev("CALL") EXCEPT !.r = r])
+               X1k == IF k # 0 THEN Arm(X1, "uc", r, now + k) ELSE X1
+           IN Acquire(X1k, c, f, o)
       [] pc = "acq" ->
            Connect([X EXCEPT !.s.lq = Tail(@), !.s.lw = FALSE, !.s.held = TRUE], c, f, o)
       [] pc = "cacq" ->
@@ -375,8 +394,9 @@ Io(X, tr, f) ==
            [] f.what = "err" -> ErrorReceived(Emit(X, [Ev("ERR") EXCEPT !.tr = tr]), f)
            [] OTHER -> Received(Emit(X, [Ev("DLV") EXCEPT !.tr = tr, !.f = f]), tr, f)
 
-Callback(X, cb, f, o, g) ==
-    CASE cb.k = "wake"  -> TaskStep(X, cb.c, f, o, g)
+Callback(X, cb, f, o, g, k) ==
+    CASE cb.k = "wake"  -> TaskStep(X, cb.c, f, o, g, k)
+      [] cb.k = "uc"    -> UCancel(X, cb.c)
       [] cb.k = "tm"    -> IF cb.id # 0 /\ cb.id \in X.s.dead THEN [X EXCEPT !.s.dead = @ \ {cb.id}]
                            ELSE Timeout(X, cb.id)
       [] cb.k = "io"    -> Io(X, cb.tr, cb.f)
@@ -392,6 +412,8 @@ Callback(X, cb, f, o, g) ==
 F0 == CHOOSE f \in Faults : TRUE
 O0 == "ok"
 G0 == CHOOSE g \in Gaps : \A h \in Gaps : g <= h
+K0 == 0
+CancelPicks == CancelAts \cup {K0}
 
 RECURSIVE Feed(_, _, _)
 Feed(mm, vv, evs) ==
@@ -400,11 +422,12 @@ Feed(mm, vv, evs) ==
 
 RunOne ==
     /\ batch > 0
-    /\ \E f \in Faults, o \in ConnOuts, g \in Gaps :
-         LET X == Callback(X0(s), Head(ready), f, o, g) IN
+    /\ \E f \in Faults, o \in ConnOuts, g \in Gaps, k \in CancelPicks :
+         LET X == Callback(X0(s), Head(ready), f, o, g, k) IN
          /\ X.uf \/ f = F0
          /\ X.uo \/ o = O0
          /\ X.ug \/ g = G0
+         /\ X.uk \/ k = K0
          /\ (X.uo /\ o # "ok") => s.cfails < MaxConnFail
          /\ s' = X.s
          /\ ready' = Tail(ready) \o X.q
